@@ -263,8 +263,7 @@ func (e *Exchange) IsCacheable(l *log.Logger) bool {
 // (Section 5.2 of [RFC7234]).
 func parseCacheControlDirectives(cacheControl string) map[string]string {
 	directives := map[string]string{}
-	// TODO: correctly handle quoted-string arguments.
-	for _, s := range strings.Split(cacheControl, ",") {
+	for _, s := range splitCacheControl(cacheControl) {
 		s = strings.TrimSpace(s)
 		eq := strings.IndexByte(s, '=')
 		if eq >= 0 {
@@ -274,6 +273,32 @@ func parseCacheControlDirectives(cacheControl string) map[string]string {
 		}
 	}
 	return directives
+}
+
+// splitCacheControl splits a Cache-Control header value into its directives.
+// A comma inside a quoted-string argument (Section 3.2.6 of [RFC7230]) does not
+// end a directive. A quoted-string that is never closed is not treated as one:
+// from its opening quote on, every comma separates directives.
+func splitCacheControl(cacheControl string) []string {
+	var parts []string
+	start, quote := 0, -1
+	for i := 0; i < len(cacheControl); i++ {
+		switch c := cacheControl[i]; {
+		case quote >= 0 && c == '\\':
+			i++ // quoted-pair
+		case c == '"' && quote >= 0:
+			quote = -1
+		case c == '"':
+			quote = i
+		case c == ',' && quote < 0:
+			parts = append(parts, cacheControl[start:i])
+			start = i + 1
+		}
+	}
+	if quote >= 0 {
+		return append(parts, strings.Split(cacheControl[start:], ",")...)
+	}
+	return append(parts, cacheControl[start:])
 }
 
 // verifySignature verifies single signature, as described in
